@@ -119,6 +119,8 @@ struct Mutated {
     /// split references were disturbed: the units may not concatenate to the key any more
     splits_touched: bool,
     probe: &'static str,
+    /// (key, n): if the input is accepted, exact lookup of `key` must return n entries
+    homographs: Option<(String, usize)>,
 }
 
 fn mutate(rng: &mut Rng, m: &Matrix, lex: &Lexicon) -> Mutated {
@@ -133,6 +135,7 @@ fn mutate(rng: &mut Rng, m: &Matrix, lex: &Lexicon) -> Mutated {
     let raw_bytes: Option<Vec<u8>>;
     raw_bytes = None;
     let mut csv_override: Option<Vec<u8>> = None;
+    let mut homographs: Option<(String, usize)> = None;
     match rng.below(30) {
         0 => {
             let f = rng.below(rows[r].len());
@@ -333,7 +336,7 @@ fn mutate(rng: &mut Rng, m: &Matrix, lex: &Lexicon) -> Mutated {
             let len = rng.below(100);
             let bytes: Vec<u8> = (0..len).map(|_| *rng.pick(&[b'0', b'1', b'2', b' ', b'\n', b'-', b'9', 0xff, 0x00, b'\t'])).collect();
             what = format!("matrix = {} random bytes", len);
-            return Mutated { matrix: bytes, csv: lex.to_csv(None).into_bytes(), what, expect, splits_touched, probe: "" };
+            return Mutated { matrix: bytes, csv: lex.to_csv(None).into_bytes(), what, expect, splits_touched, probe: "", homographs: None };
         }
         26 => {
             // invalid UTF-8 inside a field
@@ -375,6 +378,11 @@ fn mutate(rng: &mut Rng, m: &Matrix, lex: &Lexicon) -> Mutated {
                 rows.push(row.clone());
             }
             what = format!("row {} repeated {} more times", r, cnt);
+            if indexed {
+                let key = lex.entries[r].key.clone();
+                let same = lex.entries.iter().filter(|e| e.indexed() && e.key == key).count();
+                homographs = Some((key, same + cnt));
+            }
         }
     }
     let _ = raw_bytes;
@@ -390,7 +398,7 @@ fn mutate(rng: &mut Rng, m: &Matrix, lex: &Lexicon) -> Mutated {
         }
         s.into_bytes()
     });
-    Mutated { matrix: matrix_text.into_bytes(), csv, what, expect, splits_touched, probe: "" }
+    Mutated { matrix: matrix_text.into_bytes(), csv, what, expect, splits_touched, probe: "", homographs }
 }
 
 /// Loads an accepted dictionary and analyses texts made of its keys
@@ -482,7 +490,25 @@ fn run_case(mu: &Mutated, keys: &[String], res: &ResDir, rep: &mut Report, scen:
                 return false;
             }
             match arbiter(res, &out, &[], keys, mu.splits_touched, rep) {
-                Ok(()) => true,
+                Ok(()) => {
+                    // every one of the repeated rows is reachable through the index
+                    if let Some((key, n)) = &mu.homographs {
+                        let cfg_json = json!({"characterDefinitionFile": "char.def",
+                            "oovProviderPlugin": [env::simple_oov_allow(&pos(["補助記号", "一般", "*", "*", "*", "*"]), 0, 0, 20000)]});
+                        let cfg = env::config(&cfg_json, res);
+                        if let Ok(Ok(d)) = guard(|| env::load(&cfg, &out, &[], Place::Owned)) {
+                            let got = guard(|| d.lexicon().lookup(key.as_bytes(), 0).filter(|e| e.end == key.len()).count());
+                            rep.count("homograph_counts_checked", 1);
+                            if let Ok(g) = got {
+                                if g != *n {
+                                    rep.violation("emitted_dictionary_fails_analysis", "LexiconSet::lookup", &format!("{}: compilation reports success but only {} of the {} entries with key {:?} can be looked up", mu.what, g, n, clip(key, 20)), mu.probe, scen());
+                                    return false;
+                                }
+                            }
+                        }
+                    }
+                    true
+                }
                 Err((kind, site, msg)) => {
                     rep.violation(&kind, &site, &format!("{}: {}", mu.what, msg), mu.probe, scen());
                     false
@@ -529,7 +555,7 @@ pub fn run(ctx: &Ctx, rep: &mut Report) {
         let csv = lex.to_csv(None);
         let mtext = matrix.to_text();
         // the unmutated input must be accepted and valid
-        let base = Mutated { matrix: mtext.clone().into_bytes(), csv: csv.clone().into_bytes(), what: "unmodified input".into(), expect: Expect::Either, splits_touched: false, probe: "" };
+        let base = Mutated { matrix: mtext.clone().into_bytes(), csv: csv.clone().into_bytes(), what: "unmodified input".into(), expect: Expect::Either, splits_touched: false, probe: "", homographs: None };
         let scen0 = || json!({"world_index": wi, "mutation": "none", "matrix": mtext, "lexicon_csv": csv});
         run_case(&base, &keys, &res, rep, &scen0);
         // the same lexicon without any connection matrix: an error value, or a valid dictionary
@@ -819,7 +845,7 @@ fn probes(res: &ResDir, rep: &mut Report) {
     e.mode = "C";
     e.split_a = vec![Ref { dic: 0, row: 0, inline: false }, Ref { dic: 0, row: 1, inline: false }];
     lex.entries.push(e);
-    let mu = Mutated { matrix: m.to_text().into_bytes(), csv: lex.to_csv(None).into_bytes(), what: "word 'ab' declaring the A split 'abc/d'".into(), expect: Expect::Either, splits_touched: false, probe: "D9" };
+    let mu = Mutated { matrix: m.to_text().into_bytes(), csv: lex.to_csv(None).into_bytes(), what: "word 'ab' declaring the A split 'abc/d'".into(), expect: Expect::Either, splits_touched: false, probe: "D9", homographs: None };
     let scen = || json!({"probe": "D9", "lexicon_csv": String::from_utf8_lossy(&mu.csv), "matrix": String::from_utf8_lossy(&mu.matrix)});
     let before = rep.violation_count;
     run_case(&mu, &["ab".to_string()], res, rep, &scen);
